@@ -41,6 +41,7 @@ type step struct {
 
 type scenario struct {
 	Seed    int64                    `json:"case_seed"`
+	Big     bool                     `json:"big_values,omitempty"`
 	RecvFmt fsm.SnapshotRecoveryType `json:"recv_fmt"`
 	Steps   []step                   `json:"steps"`
 
@@ -61,13 +62,22 @@ type witness struct {
 	What     string   `json:"what"`
 }
 
-func buildScenario(seed int64, small bool) *scenario {
+func buildScenario(seed int64, small bool) *scenario { return buildScenarioX(seed, small, false) }
+
+// buildScenarioX: big scenarios write 1-2 MiB values (plain write followed by a reading command in
+// the same apply call) so that the 16 MiB memtable rotates and flushes in the background at
+// arbitrary points INSIDE apply calls; without a write-ahead log that is the only way a crash can
+// separate two commits of one apply call.
+func buildScenarioX(seed int64, small, big bool) *scenario {
 	g := gen.New(seed)
 	g.NewPool(4 + g.R.Intn(4))
-	s := &scenario{Seed: seed, RecvFmt: fsm.SnapshotRecoveryType(g.R.Intn(2)), states: map[uint64]*model.Table{}, results: map[uint64]model.Result{}, snaps: map[int][]byte{}}
+	s := &scenario{Seed: seed, Big: big, RecvFmt: fsm.SnapshotRecoveryType(g.R.Intn(2)), states: map[uint64]*model.Table{}, results: map[uint64]model.Result{}, snaps: map[int][]byte{}}
 	n := 6 + g.R.Intn(14)
 	if small {
 		n = 4 + g.R.Intn(6)
+	}
+	if big {
+		n = 18 + g.R.Intn(10)
 	}
 	m := model.NewTable()
 	g.Peek = func(k []byte) ([]byte, bool) { v, ok := m.M[string(k)]; return v, ok }
@@ -78,6 +88,12 @@ func buildScenario(seed int64, small bool) *scenario {
 		c := g.Command(1)
 		if g.R.Intn(3) == 0 {
 			c = &pb.Command{Table: []byte("t"), Type: pb.Command_TXN, Txn: g.Txn(false)}
+		}
+		if big {
+			v := make([]byte, 1<<20+g.R.Intn(1<<20))
+			copy(v, fmt.Sprintf("big-%d", i))
+			// alternate plain writes and reading writes (prev_kv makes the apply batch indexed)
+			c = &pb.Command{Table: []byte("t"), Type: pb.Command_PUT, Kv: &pb.KeyValue{Key: g.Key(), Value: v}, PrevKvs: i%2 == 1}
 		}
 		if g.R.Intn(3) == 0 {
 			li += 1 + uint64(g.R.Intn(5))
@@ -94,7 +110,14 @@ func buildScenario(seed int64, small bool) *scenario {
 	pos := 0
 	didRecover := false
 	for pos < n {
-		switch k := g.R.Intn(10); {
+		k := g.R.Intn(10)
+		if big && k >= 6 {
+			k = g.R.Intn(5) // big scenarios: apply calls and a rare sync only
+			if g.R.Intn(8) == 0 {
+				k = 5
+			}
+		}
+		switch {
 		case k < 5:
 			c := 1 + g.R.Intn(4)
 			if c > n-pos {
@@ -385,9 +408,9 @@ func main() {
 			fmt.Fprintln(os.Stderr, "replay:", err)
 			os.Exit(2)
 		}
-		s := buildScenario(w.Scenario.Seed, false)
+		s := buildScenarioX(w.Scenario.Seed, false, w.Scenario.Big)
 		if len(s.Steps) != len(w.Scenario.Steps) {
-			s = buildScenario(w.Scenario.Seed, true)
+			s = buildScenarioX(w.Scenario.Seed, true, w.Scenario.Big)
 		}
 		// operation numbering varies slightly between runs (background flushes): try the recorded k and its neighbours
 		for d := -3; d <= 3; d++ {
@@ -405,9 +428,13 @@ func main() {
 	var jobs []job
 	nSmall, nBig := r.Pick(14, 150), r.Pick(8, 250)
 	perBig := r.Pick(60, 150)
-	for i := 0; i < nSmall+nBig; i++ {
+	nHuge := r.Pick(2, 24)
+	for i := 0; i < nSmall+nBig+nHuge; i++ {
 		small := i < nSmall
-		s := buildScenario(r.Seed*1_000_003+int64(i), small)
+		s := buildScenarioX(r.Seed*1_000_003+int64(i), small, i >= nSmall+nBig)
+		if s.Big {
+			r.Count("scenarios_with_big_values(memtable rotation inside apply calls)", 1)
+		}
 		o := execute(s, 0)
 		if o.errBefore != nil {
 			r.Violation("crash-free-run-fails", fmt.Sprintf("%s: %v", o.errWhere, o.errBefore), witness{Scenario: *s})
@@ -424,7 +451,7 @@ func main() {
 			r.Count("steps_"+st.Kind, 1)
 		}
 		g := gen.New(s.Seed ^ 0x77)
-		if small {
+		if small || s.Big {
 			for k := 1; k <= o.ops+2; k++ {
 				jobs = append(jobs, job{s, k, 0})
 			}
